@@ -159,48 +159,123 @@ def rule_r15(body, hits, stub_body=None, meta=None):
     return out
 
 
-def rule_r16(body, hits):
-    """R16: `let PAT0 = (LO..HI).try_fold(INIT, |ACCPAT, _| { BODY })?;` is replaced by the definition of
-    Iterator::try_fold (`for x in iter { acc = f(acc, x)?; } Ok(acc)`) with the closure applied in place:
-         let PAT0 = { let mut __acc = INIT; let mut __k = LO; while __k < HI { __k += 1; let ACCPAT = __acc; BODY' } __acc };
-    (a counted `while`, because Verus for-loops do not support `continue`)
-    where in BODY' a closure-level `return Ok(E);` becomes `{ __acc = E; continue; }`, the closure's final `Ok(E)` becomes
-    `__acc = E;`, and `?` keeps its meaning (an error leaves try_fold and, through the trailing `?`, the function).
-    Needed because Verus has no specification for provided trait methods such as try_fold, nor for mutable captures."""
-    m = mask(body)
-    mm = re.search(r"let\s+(\([^=]*?\))\s*=\s*\((\w+)\.\.(\w+)\)\.try_fold\(", m)
-    if not mm:
-        raise AnchorLost("R16: try_fold statement not found")
-    op = mm.end() - 1
-    cl = match_close(m, op)
-    inner = body[op + 1:cl]
-    mi = mask(inner)
-    depth = 0
-    k = 0
-    while k < len(mi):
-        ch = mi[k]
+def split_args(text):
+    """split at top-level commas"""
+    mi = mask(text)
+    out, depth, last = [], 0, 0
+    for k, ch in enumerate(mi):
         if ch in "([{":
             depth += 1
         elif ch in ")]}":
             depth -= 1
         elif ch == "," and depth == 0:
+            out.append(text[last:k])
+            last = k + 1
+    out.append(text[last:])
+    return out
+
+
+FOLD_HEAD = re.compile(
+    r"(?:\((?P<lo>\w+)\.\.(?P<hi>\w+)\)|(?P<recv>[A-Za-z_][\w\.]*(?:\(\))?)\s*\.iter\(\)(?P<en>\s*\.enumerate\(\))?)\s*\.(?P<m>try_fold|fold)\(")
+
+
+def rule_r16(body, hits, acctype=None):
+    """R16: a fold over a counted source is replaced by the definition of Iterator::(try_)fold with the closure applied
+    in place.  Source: `(LO..HI)`, `RECV.iter()` or `RECV.iter().enumerate()`; method `fold(INIT, |ACC, X| B)` or
+    `try_fold(INIT, |ACC, X| B)?`:
+         { let mut __acc = INIT; [let __it = RECV;] let mut __k = LO|0;
+           while __k < HI|__it.len() { [let X = __k | &__it[__k] | (__k, &__it[__k]);] __k += 1; let ACC = __acc; B' } __acc }
+    (a counted `while`, because Verus for-loops support neither `continue` nor these iterator adapters).  In B' a
+    closure-level `return Ok(E);` (`return E;` for fold) becomes `{ __acc = E; continue; }`, the closure's final
+    `Ok(E)` (`E`) becomes `__acc = E;`, and `?` keeps its meaning: an error leaves try_fold and, through the trailing
+    `?`, the function.  Every fold in the body is rewritten.  Needed because Verus has no specification for provided
+    trait methods such as (try_)fold, nor for closures with mutable captures."""
+    count = 0
+    if FOLD_HEAD.search(mask(body)):
+        body = mask(body, strings=False)        # comments out (they may sit between the arguments)
+    while True:
+        m = mask(body)
+        mm = FOLD_HEAD.search(m)
+        if not mm:
             break
-        k += 1
-    init = inner[:k].strip()
-    clo = inner[k + 1:].strip()
-    cm = re.match(r"\|\s*(\(.*?\))\s*,\s*_\s*\|\s*\{(.*)\}\s*$", clo, re.S)
-    tail = re.match(r"\s*\?\s*;", body[cl + 1:])
-    if not cm or not tail:
-        raise AnchorLost("R16: try_fold closure not in the expected shape")
-    accpat, cbody = cm.group(1), cm.group(2)
-    cbody, n1 = re.subn(r"return\s+Ok\((.*?)\)\s*;", r"{ __acc = \1; continue; }", cbody, flags=re.S)
-    cbody, n2 = re.subn(r"Ok\(\s*(\([^()]*\))\s*\)\s*$", r"__acc = \1;", cbody.rstrip(), flags=re.S)
-    if n2 != 1:
-        raise AnchorLost("R16: closure does not end in Ok((..))")
-    rep = ("let %s = { let mut __acc = %s; let mut __k = %s; while __k < %s { __k += 1; let %s = __acc; %s } __acc };"
-           % (mm.group(1), init, mm.group(2), mm.group(3), accpat, cbody))
-    hits["R16"] = hits.get("R16", 0) + 1
-    return body[:mm.start()] + rep + body[cl + 1 + tail.end():]
+        op = mm.end() - 1
+        cl = match_close(m, op)
+        args = split_args(body[op + 1:cl])
+        if len(args) < 2:
+            raise AnchorLost("R16: fold does not have (init, closure) arguments")
+        init, clo = args[0].strip(), ",".join(args[1:]).strip().rstrip(",").strip()
+        cm = re.match(r"\|(.*?)\|\s*(.*)$", clo, re.S)
+        if not cm:
+            raise AnchorLost("R16: fold closure not in the expected shape")
+        params = split_args(cm.group(1))
+        if len(params) != 2:
+            raise AnchorLost("R16: fold closure must have two parameters")
+        accpat, elpat = params[0].strip(), params[1].strip()
+        cbody = cm.group(2).strip()
+        is_try = mm.group("m") == "try_fold"
+        end = cl + 1
+        if is_try:
+            tail = re.match(r"\s*\?", body[cl + 1:])
+            if not tail:
+                raise AnchorLost("R16: try_fold not followed by `?`")
+            end = cl + 1 + tail.end()
+        if mask(cbody).startswith("{"):
+            inner = cbody[1:match_close(mask(cbody), 0)].rstrip()
+            if is_try:
+                inner, _ = re.subn(r"return\s+Ok\((.*?)\)\s*;", r"{ __acc = \1; continue; }", inner, flags=re.S)
+                inner, n2 = re.subn(r"Ok\(\s*(\([^()]*\))\s*\)\s*$", r"__acc = \1;", inner, flags=re.S)
+            else:
+                inner, _ = re.subn(r"return\s+(\([^()]*\))\s*([;,])", r"{ __acc = \1; continue; }\2", inner, flags=re.S)
+                if re.search(r"\breturn\b", mask(inner)):
+                    raise AnchorLost("R16: closure-level return not in the expected shape")
+                inner, n2 = re.subn(r"(\([^()]*\))\s*$", r"__acc = \1;", inner, flags=re.S)
+            if n2 != 1:
+                raise AnchorLost("R16: closure does not end in a tuple result")
+        else:
+            if is_try:
+                raise AnchorLost("R16: expression-bodied try_fold closure")
+            inner = "__acc = %s;" % cbody
+        if mm.group("lo") is not None:
+            pre, lo, hi = "", mm.group("lo"), mm.group("hi")
+            el = "" if elpat == "_" else "let %s = __k; " % elpat
+        else:
+            recv = mm.group("recv")
+            pre = "let __it = %s%s; " % ("" if recv.endswith(")") else "&", recv)
+            lo, hi = "0", "__it.len()"
+            item = "(__k, &__it[__k])" if mm.group("en") else "&__it[__k]"
+            el = "let %s = %s; " % (elpat, item)
+        ty = (": " + acctype) if acctype else ""
+        kty = "" if mm.group("lo") is not None else ": usize"
+        rep = ("{ let mut __acc%s = %s; %slet mut __k%s = %s; while __k < %s { %s__k += 1; let %s = __acc; %s } __acc }"
+               % (ty, init, pre, kty, lo, hi, el, accpat, inner))
+        body = body[:mm.start()] + rep + body[end:]
+        count += 1
+    if not count:
+        raise AnchorLost("R16: no fold found")
+    hits["R16"] = hits.get("R16", 0) + count
+    return body
+
+
+def rule_r18(body, hits):
+    """R18: `for (I, X) in RECV.iter().enumerate() { B }` -> counted while over the same elements in the same order:
+         { let __en = &RECV; let mut __j: usize = 0; while __j < __en.len() { let (I, X) = (__j, &__en[__j]); __j += 1; B } }
+    (Verus has no specification for Enumerate)."""
+    count = 0
+    while True:
+        m = mask(body)
+        mm = re.search(r"\bfor\s+(\([^()]*\))\s+in\s+([A-Za-z_][\w\.]*)\s*\.iter\(\)\s*\.enumerate\(\)\s*\{", m)
+        if not mm:
+            break
+        ob = mm.end() - 1
+        cb = match_close(m, ob)
+        rep = ("{ let __en = &%s; let mut __j: usize = 0; while __j < __en.len() { let %s = (__j, &__en[__j]); __j += 1; %s } }"
+               % (mm.group(2), body[mm.start(1):mm.end(1)], body[ob + 1:cb]))
+        body = body[:mm.start()] + rep + body[cb + 1:]
+        count += 1
+    if not count:
+        raise AnchorLost("R18: no enumerate loop found")
+    hits["R18"] = hits.get("R18", 0) + count
+    return body
 
 
 def apply_rules(body, rules, hits):
@@ -317,6 +392,16 @@ class Extractor:
                 if self.expanded_provider is None:
                     raise TemplateError("expanded source requested but no provider")
                 self._src[src] = Source(self.expanded_provider(), "expanded")
+            elif src.startswith("lifted:"):
+                # R17: closure-converted form of a many0(complete(closure)) expression, rebuilt from /repo's expansion
+                # and the nom source pinned by Cargo.lock (tools/lift.py)
+                import lift
+                if self.expanded_provider is None:
+                    raise TemplateError("lifted source requested but no expanded provider")
+                txt, lmeta = lift.build(src.split(":", 1)[1], self.repo, self.expanded_provider())
+                self.meta.setdefault("lifts", []).append(lmeta)
+                self.meta["rule_hits"]["R17"] = self.meta["rule_hits"].get("R17", 0) + 1
+                self._src[src] = Source(txt, src)
             else:
                 p = os.path.join(self.repo, src)
                 if not os.path.exists(p):
@@ -432,10 +517,23 @@ class Extractor:
             if key == "generics":
                 sig = re.sub(r"\bfn\s+%s\b(?!\s*<)" % fname, "fn %s%s" % (fname, val.strip()), sig, count=1)
         for key, val in opts:
+            if key == "mutparam":
+                # R19: `mut x: T` parameter -> parameter `x__in: T` and a local `let mut x = x__in;`
+                # (inside `ensures`, Verus resolves a `mut` parameter to its final value)
+                pn = val.strip()
+                sig, n = re.subn(r"\bmut\s+%s\s*:" % re.escape(pn), "%s__in:" % pn, sig, count=1)
+                if n != 1:
+                    raise AnchorLost("fn %s: no `mut %s` parameter" % (fname, pn))
+                body = "{ let mut %s = %s__in;" % (pn, pn) + body[1:]
+                hits["R19"] = hits.get("R19", 0) + 1
+        for key, val in opts:
             if key == "prerules":
-                body = apply_rules(body, [r for r in val.split() if r not in ("R14", "R15", "R16")], hits)
+                body = apply_rules(body, [r for r in val.split() if r not in ("R14", "R15", "R16", "R18")], hits)
                 if "R16" in val.split():
-                    body = rule_r16(body, hits)
+                    at = [v for k, v in opts if k == "acctype"]
+                    body = rule_r16(body, hits, at[0].strip() if at else None)
+                if "R18" in val.split():
+                    body = rule_r18(body, hits)
                 if "R14" in val.split():
                     body = rule_r14(body, hits)
                 if "R15" in val.split():
@@ -449,7 +547,7 @@ class Extractor:
         for key, val in opts:
             if key in ("requires", "ensures", "decreases"):
                 contract.append((key, val.strip().rstrip(",")))
-            elif key in ("rules", "prerules", "mapresbody"):
+            elif key in ("rules", "prerules", "mapresbody", "acctype", "mutparam"):
                 pass
             elif key.startswith("closure "):
                 if cl is None:
@@ -517,6 +615,19 @@ class Extractor:
                     pos = ob + 1
                 else:
                     pos = match_close(mask(body), ob)
+                edits.append((pos, pos, " " + val.strip() + " "))
+            elif key.startswith(("loopstart ", "loopend ", "beforeloop ")):
+                # structural anchors (robust against edits of the statements inside the loop)
+                if wl is None:
+                    wl = loops(body, ("while", "loop"))
+                kind, n = key.split()
+                n = int(n)
+                if n >= len(wl):
+                    raise AnchorLost("fn %s: loop #%d not found" % (fname, n))
+                if not SPEC_ONLY.match(val):
+                    raise TemplateError("inserted text must be spec-only: " + val[:40])
+                ks, ob = wl[n]
+                pos = ks if kind == "beforeloop" else (ob + 1 if kind == "loopstart" else match_close(mask(body), ob))
                 edits.append((pos, pos, " " + val.strip() + " "))
             elif key.startswith("loop "):
                 if wl is None:
@@ -684,7 +795,7 @@ class Extractor:
                     d2 = s2[3:]
                     if d2.strip() == "end":
                         break
-                    mk = re.match(r"\s{0,3}((?:closure|forloop|opaquefor|beforefor|forstart|forend|loop)\s+\d+|before\s+\"[^\"]*\"|after\s+\"[^\"]*\"|opaque\s+\"[^\"]*\"|\w+):(.*)$", d2)
+                    mk = re.match(r"\s{0,3}((?:closure|forloop|opaquefor|beforefor|forstart|forend|loopstart|loopend|beforeloop|loop)\s+\d+|before\s+\"[^\"]*\"|after\s+\"[^\"]*\"|opaque\s+\"[^\"]*\"|\w+):(.*)$", d2)
                     if mk and not d2.startswith("     "):
                         opts.append([mk.group(1), mk.group(2)])
                     else:
